@@ -191,6 +191,52 @@ def check_stats(ctx, coq_ok):
                        "how": "vh-api stats-stress %d %d %d" % (g, per, nd)})
 
 
+def check_capture_sizes(ctx):
+    """The capture sizes reported for successive messages add up to the bytes consumed: real
+    redis and http Dissect, every message ends up in an item or in the matcher residue."""
+    from fam import match as M
+    hists = []
+    for nreq, nresp in [(1, 1), (2, 2), (3, 2), (2, 3), (4, 4)]:
+        ms = list(M.merges(M.conversation([(1, nreq, nresp)])))
+        hists += ms if len(ms) <= 40 else ctx.rng.sample(ms, 40)
+    for _ in range(30 if ctx.tier == "quick" else 400):
+        spec = [(c, ctx.rng.randint(0, 8), ctx.rng.randint(0, 8)) for c in range(1, ctx.rng.randint(2, 4))]
+        seqs = [list(x) for x in M.conversation(spec) if x]
+        h = []
+        while seqs:
+            x = ctx.rng.choice(seqs)
+            h.append(x.pop(0))
+            seqs = [y for y in seqs if y]
+        if h:
+            hists.append(h)
+    for proto in ("redis", "http"):
+        rc, out = ctx.vh("vh-match", ["seq"], inp="\n".join(M.hist_line(proto, h) for h in hists) + "\n", timeout=900)
+        lines = [l for l in out.splitlines() if l.startswith("{")]
+        if rc != 0 or len(lines) != len(hists):
+            ctx.broken.append("capture-size run failed for %s" % proto)
+            continue
+        reported = 0
+        for h, l in zip(hists, lines):
+            r = json.loads(l)
+            dirs = {}
+            for c, d, p in h:
+                dirs[p] = "%d:%s" % (c, d)
+            total = {}
+            for it in r["items"] or []:
+                total[dirs.get(it["req"])] = total.get(dirs.get(it["req"]), 0) + it["reqsize"]
+                total[dirs.get(it["resp"])] = total.get(dirs.get(it["resp"]), 0) + it["respsize"]
+            for x in r["residue"] or []:
+                total[dirs.get(x["pid"])] = total.get(dirs.get(x["pid"]), 0) + x["size"]
+            ctx.count_case(("capture", proto, tuple(h)), len(h) >= 3, "capture-size")
+            if {k: v for k, v in total.items() if v} != {k: v for k, v in (r.get("fed") or {}).items() if v} and reported < 2:
+                reported += 1
+                ctx.violation({"kind": "capture-size", "protocol": proto, "history": ["%d:%s:%d" % e for e in h],
+                               "fed_bytes": r.get("fed"), "sum_of_capture_sizes": total,
+                               "how": "echo '%s' | work/bin/vh-match seq" % M.hist_line(proto, h)})
+        ctx.sample({"kind": "capture-size", "protocol": proto, "history": ["%d:%s:%d" % e for e in hists[3]],
+                    "fed": json.loads(lines[3]).get("fed")})
+
+
 def search_model_counterexample(ctx):
     """The source-derived reset/inc programs no longer satisfy the theorem's side conditions:
     search the regenerated model for a schedule that loses or double-counts an event."""
@@ -220,6 +266,7 @@ def run(ctx):
     base_ok = not ({"Base/Prelude.v", "Api/Progress.v", "Api/ProgressSpec.v", "Api/Stats.v", "gen/StatsSrc.v"} & failed)
     check_progress(ctx, base_ok)
     check_stats(ctx, base_ok)
+    check_capture_sizes(ctx)
     if "Api/StatsTie.v" in failed and base_ok:
         cx = search_model_counterexample(ctx)
         if cx:
